@@ -365,6 +365,30 @@ class Prog:
         f = " ".join(fn.sx() for fn in self.fns)
         return f"(prog (globals {g}) (fns {f}) {self.dsp.sx()})".replace("  ", " ")
 
+    def asx(self):
+        """annotated S-expression for the Lean type checker (drv_c03): what the program text does not say — the types of
+        function / lambda parameters (all numbers in this generator: the table's default) and the return types of the
+        named functions that do not return a number"""
+        rets = " ".join(f"({fn.name} {shape_sx(fn.ret)})" for fn in self.fns if fn.ret != F)
+        # a record update `{ r <- f = e }` keeps the type of `r` in the surface language; for the type checker it is rendered as
+        # `let tmp = r; tmp = (r.0, …, e, …); tmp` (same value; the assignment forces the updated tuple to have r's type)
+        def recupd_typed(n):
+            a = n.a
+            comps = [sx(a[4]) if i == a[2] else f"(proj (var {a[0]}) {i})" for i in range(a[3])]
+            return f"(let ru_{a[0]} (var {a[0]}) (set ru_{a[0]} (tup {' '.join(comps)}) (var ru_{a[0]})))"
+        saved = EXT_SX.get("recupd")
+        EXT_SX["recupd"] = recupd_typed
+        try:
+            body = self.sx()
+        finally:
+            if saved is None:
+                del EXT_SX["recupd"]
+            else:
+                EXT_SX["recupd"] = saved
+        # parameters that the rendered source annotates `:float` (see `src`: programs with parameter-pack calls)
+        binders = " ".join(f"({q} n)" for fn in self.fns for q in fn.params) if self.has_pack_call() else ""
+        return f"(aprog {body} (binders {binders}) (rets {rets}))".replace("  ", " ")
+
     def has_pack_call(self):
         def walk(n):
             return (n.kind == "call" and len(n.a) > 3 and n.a[3] == "record") or any(walk(ch) for _, ch in children(n))
@@ -1068,7 +1092,8 @@ def mutate_node(r, n):
     one = Node("lit", "1.0")
     tup2 = Node("tup", [Node("lit", "1.0"), Node("lit", "2.0")])
     if m == "tup_drop" and len(n.a[0]) > 1:
-        return m, Node("tup", list(n.a[0][:-1]))
+        # `(x)` is a parenthesised expression in the surface syntax, not a 1-tuple: a pair loses its tuple-ness
+        return m, (Node("tup", list(n.a[0][:-1])) if len(n.a[0]) > 2 else n.a[0][0])
     if m == "tup_add":
         return m, Node("tup", list(n.a[0]) + [one])
     if m == "proj_far":
@@ -1103,6 +1128,32 @@ def mutate_node(r, n):
     if m == "delay_tuple":
         return m, Node("delay", n.a[0], tup2, n.a[2], n.a[3])
     return None, None
+
+
+def map_nodes(n, f):
+    """bottom-up rewrite of an AST"""
+    for key, ch in children(n):
+        n = replace_child(n, key, map_nodes(ch, f))
+    return f(n)
+
+
+def strip_record_annotations(p):
+    """the same program without the `let r: {f: float, …} = …` type annotations (they say `float`; a mutant that puts
+    something else there would be rejected for the annotation, which the S-expression of the model does not carry)"""
+    def f(n):
+        return Node("letr", n.a[0], None, n.a[2], n.a[3]) if n.kind == "letr" and n.a[1] is not None else n
+    return Prog([(x, map_nodes(e, f)) for x, e in p.globals], [fn.with_body(map_nodes(fn.body, f)) for fn in p.fns],
+                p.dsp.with_body(map_nodes(p.dsp.body, f)))
+
+
+def has_sole_tuple_argument(p):
+    """some call / application has exactly one argument and it is a tuple literal: the surface language reads `f((a, b))`
+    as `f(a, b)` (an argument pack), the core model as one tuple-valued argument"""
+    def walk(n):
+        if n.kind in ("call", "app") and len(n.a[1]) == 1 and n.a[1][0].kind == "tup":
+            return True
+        return any(walk(ch) for _, ch in children(n))
+    return any(walk(f.body) for f in p.fns + [p.dsp])
 
 
 def mutant(p, r):
